@@ -42,6 +42,7 @@ package key
 //@   ensures [C12.dec.rt]  len(raw) >= 6 && raw[0] == 1 ==> err == nil && k.version == 1 && k.KeyType == raw[4] && sameSlice(k.Key, raw[5:])
 //@   ensures [C12.dec.ok]  len(raw) >= 4 && raw[0] == 1 ==> err == nil
 //@   ensures len(k.Key) <= len(raw)
+//@   ensures [C12.dec.short] err == nil && len(raw) < 6 ==> k.KeyType == 0
 //@   ensures [C12.dec.hdr] len(raw) < 4 ==> err == ErrMissingKeyHeader
 //@   ensures [C12.dec.ver] len(raw) >= 4 && raw[0] != 1 ==> err == ErrUnknownKeyVersion
 //@   modifies nothing
